@@ -452,7 +452,12 @@ func idnaStrictZone(host string) bool {
 			}
 		}
 	}
-	return ace && trigger
+	if !(ace && trigger) {
+		return false
+	}
+	// and that is indeed why it is rejected: the strict IDNA profile refuses the host and the ASCII fall-back does not apply to ACE labels
+	_, err := url.VerifIdnaRaw(host)
+	return err != nil && !fallbackAccepts(host)
 }
 
 // ---------- bounded-exhaustive edge histories ----------
